@@ -255,8 +255,10 @@ class StmtMixin:
     self.env.update(extra_env)
     try:
       for j, inv in enumerate(lc.inv):
-        g = self.spec(inv)
-        self.oblige(g, kind, 'loop#%d inv[%d]: %s' % (ordinal, j, inv))
+        # `aux:` marks a clause that only supports helper (`aux:`) postconditions: failing alone it is undecided, not a violation
+        aux = inv.startswith('aux:')
+        g = self.spec(inv[4:] if aux else inv)
+        self.oblige(g, kind, 'loop#%d inv[%d]%s: %s' % (ordinal, j, ' (helper clause)' if aux else '', inv), aux=aux)
     finally:
       for k in extra_env:
         if k in saved:
@@ -267,7 +269,7 @@ class StmtMixin:
   def _assume_inv(self, lc, extra_env):
     self.env.update(extra_env)
     for inv in lc.inv:
-      self.assume(self.spec(inv))
+      self.assume(self.spec(inv[4:] if inv.startswith('aux:') else inv))
 
   def _ghost_run(self, stmts):
     """Ghost assignments `name = <spec expr>` (exist only in the VCs)."""
